@@ -718,6 +718,13 @@ impl Explorer<'_, '_> {
         } else {
             vec![]
         };
+        // (c) class rules of which some have a one-character context: the input is one character,
+        // so those contexts fail and the first context-free class containing the character wins
+        if spec.sets[0].rules.len() > 1 && spec.sets[0].rules[1..].iter().all(|r| r.ctx.is_none()) && matches!(rule0.ctx, Some(Re::Char(_))) && spec.sets[0].rules.iter().all(|r| class_of(&r.re, &env).is_some()) {
+            let multi: Vec<crate::iset::ISet> = spec.sets[0].rules.iter().map(|r| if r.ctx.is_some() { vec![] } else { crate::iset::scalar_only(&class_of(&r.re, &env).unwrap()) }).collect();
+            self.sweep_case("", "", &vec![], &multi, 0);
+            return;
+        }
         self.sweep_case(prefix, suffix, &set, &multi, 0);
     }
 
